@@ -456,7 +456,14 @@ def raise_formula(prog, fi, env0=None, depth: int = 2):
                     path = f_and(path, f_not(f_or(rv, ro)))
                 continue
             # anything else: ignored (no effect on which inputs are rejected), loops make the analysis give up
-            if isinstance(st, (ast.For, ast.While, ast.Try, ast.With)):
+            if isinstance(st, ast.Try):
+                # what a try block rejects depends on library exceptions: it contributes nothing *provable* to the
+                # rejection condition; names it binds become opaque
+                for x in ast.walk(st):
+                    if isinstance(x, ast.Name) and isinstance(x.ctx, ast.Store):
+                        env.pop(x.id, None)
+                continue
+            if isinstance(st, (ast.For, ast.While, ast.With)):
                 raise FrmUnknown(f"statement `{norm(st, 50)}` in a validator")
         return path
     block(fi.node.body, ("true",))
